@@ -328,6 +328,229 @@ fn check_case(run: &Run, case: &Case, origin: &'static str, case_seed: Option<u6
     acc.flush(run);
 }
 
+
+// ---------------------------------------------------------------------------------------------
+// clause 2: goals composed by the pragmatic reader (single layers and `multi-objective` layers with strategy sum / weighted-sum)
+
+/// Additive objective types of the pragmatic format (the cost objective is additive only without waiting time: such layers are not judged here).
+fn is_additive(ty: &str) -> bool {
+    matches!(ty, "minimize-unassigned" | "minimize-tours" | "maximize-tours" | "minimize-distance" | "maximize-value")
+}
+
+/// A generated objective list obeying E1600-E1607 made mostly of additive objectives, some of them folded into multi-objective layers.
+fn gen_pragmatic_objectives(rng: &mut Rng, any_value: bool) -> Vec<Value> {
+    let mut pool: Vec<Value> = Vec::new();
+    pool.push(if rng.chance(0.3) { json!({"type": "minimize-unassigned", "breaks": *rng.pick(&[0.5f64, 1., 2.])}) } else { json!({"type": "minimize-unassigned"}) });
+    pool.push(if rng.chance(0.75) { json!({"type": "minimize-tours"}) } else { json!({"type": "maximize-tours"}) });
+    pool.push(if rng.chance(0.85) { json!({"type": "minimize-distance"}) } else { json!({"type": "minimize-cost"}) });
+    if any_value {
+        pool.push(json!({"type": "maximize-value"}));
+    }
+    rng.shuffle(&mut pool);
+    // fold 2..3 neighbours into one multi-objective layer (another top-level objective always remains, see the C10 finding)
+    if pool.len() >= 3 && rng.chance(0.75) {
+        let n = rng.range_usize(2, (pool.len() - 1).min(3));
+        let at = rng.usize_below(pool.len() - n + 1);
+        let inner: Vec<Value> = pool.drain(at..at + n).collect();
+        let strategy = if rng.chance(0.5) {
+            json!({"name": "sum"})
+        } else {
+            let weights: Vec<f64> = (0..n).map(|_| *rng.pick(&[0.25f64, 0.5, 1., 2., 3.])).collect();
+            json!({"name": "weighted-sum", "weights": weights})
+        };
+        pool.insert(at, json!({"type": "multi-objective", "strategy": strategy, "objectives": inner}));
+    }
+    pool
+}
+
+/// (types, weights) of the objectives of one top-level entry of the objective list.
+fn layer_parts(layer: &Value) -> Vec<(String, f64)> {
+    if layer["type"].as_str() == Some("multi-objective") {
+        let inner = layer["objectives"].as_array().cloned().unwrap_or_default();
+        let weights: Vec<f64> = match layer["strategy"]["weights"].as_array() {
+            Some(w) => w.iter().map(|x| x.as_f64().unwrap_or(f64::NAN)).collect(),
+            None => vec![1.; inner.len()],
+        };
+        inner.iter().zip(weights).map(|(o, w)| (o["type"].as_str().unwrap_or("?").to_string(), w)).collect()
+    } else {
+        vec![(layer["type"].as_str().unwrap_or("?").to_string(), 1.)]
+    }
+}
+
+fn layer_name(layer: &Value) -> String {
+    if layer["type"].as_str() == Some("multi-objective") {
+        let parts: Vec<String> = layer_parts(layer).into_iter().map(|(t, _)| t).collect();
+        format!("{}({})", layer["strategy"]["name"].as_str().unwrap_or("?"), parts.join("+"))
+    } else {
+        layer["type"].as_str().unwrap_or("?").to_string()
+    }
+}
+
+fn check_pragmatic_case(run: &Run, case_seed: u64) {
+    use vrp_core::construction::heuristics::UnassignmentInfo;
+    use vrp_core::solver::RefinementContext;
+    use vrp_core::solver::search::{Recreate, RecreateWithCheapest};
+    use vverif::pragen;
+    use vverif::solverun::{ReadOutcome, read_problem};
+
+    let mut rng = Rng::new(case_seed);
+    let mut cfg = pragen::GenCfg::default();
+    cfg.min_jobs = 5;
+    cfg.max_jobs = 14;
+    // conditional jobs (breaks, reloads, recharge) move between required and ignored while a state is accepted: outside this clause
+    cfg.p_breaks = 0.;
+    cfg.p_reloads = 0.;
+    cfg.p_unreachable = 0.;
+    cfg.p_values = 0.5;
+    cfg.p_objectives = 0.;
+    let mut gp = pragen::generate(&mut rng, &cfg);
+    let objectives = gen_pragmatic_objectives(&mut rng, gp.has("value"));
+    gp.problem.as_object_mut().unwrap().insert("objectives".into(), Value::Array(objectives.clone()));
+    let problem = match read_problem(&gp) {
+        ReadOutcome::Ok(p) => p,
+        ReadOutcome::Err(codes, _) => {
+            run.inconclusive(&format!("pragmatic clause: generated document rejected ({})", codes.join(",")));
+            return;
+        }
+        ReadOutcome::Panic(p) => {
+            run.inconclusive(&format!("pragmatic clause: reader panicked (C10's business): {}", p.file()));
+            return;
+        }
+    };
+    let goal_text = objectives.iter().map(layer_name).collect::<Vec<_>>().join(" > ");
+    let env = Micro::environment();
+    // state: cheapest insertion of all jobs but 1-3 withheld ones, which are then listed as unassigned (Unknown)
+    let built = run.guard(|| {
+        let mut ctx = InsertionContext::new(problem.clone(), env.clone());
+        // a fresh context lists every job as unassigned (Unknown); a recreate step queues those again
+        let mut jobs: Vec<Job> = ctx.solution.unassigned.keys().cloned().chain(ctx.solution.required.iter().cloned()).collect();
+        jobs.sort_by_key(vverif::histories::job_id);
+        let mut held: Vec<Job> = Vec::new();
+        for _ in 0..rng.range_usize(1, 3) {
+            if jobs.len() > 2 {
+                held.push(jobs.remove(rng.usize_below(jobs.len())));
+            }
+        }
+        ctx.solution.required.retain(|j| !held.contains(j));
+        ctx.solution.unassigned.retain(|j, _| !held.contains(j));
+        ctx.solution.ignored.extend(held.iter().cloned());
+        let (rctx, _): (RefinementContext, String) = vverif::histories::new_refinement_ctx(problem.clone(), env.clone(), &mut Rng::new(1));
+        let mut ctx = RecreateWithCheapest::new(env.random.clone()).run(&rctx, ctx);
+        ctx.solution.ignored.retain(|j| !held.contains(j));
+        ctx.solution.unassigned.extend(held.iter().cloned().map(|j| (j, UnassignmentInfo::Unknown)));
+        problem.goal.accept_solution_state(&mut ctx.solution);
+        (ctx, held)
+    });
+    let (base_ctx, held): (InsertionContext, Vec<Job>) = match built {
+        Ok(v) => v,
+        Err(p) => {
+            run.inconclusive(&format!("pragmatic clause: state construction panicked (C04/C05's business): {}", p.file()));
+            return;
+        }
+    };
+    if !base_ctx.solution.required.is_empty() || base_ctx.solution.routes.is_empty() {
+        run.inconclusive("pragmatic clause: no finalised state with tours");
+        return;
+    }
+    let mut acc = Acc::default();
+    acc.see("origin", "pragmatic");
+    acc.see("pragmatic_state", &format!("held={} routes={}", held.len(), base_ctx.solution.routes.len().min(5)));
+    acc.see("pragmatic_goal", &goal_text);
+    for job in held.iter() {
+        let job_class = if job.as_multi().is_some() { "multi" } else { "single" };
+        let n_routes = base_ctx.solution.routes.len();
+        // targets: every tour + the next free vehicle
+        for target in 0..=n_routes {
+            let ctx = base_ctx.deep_copy();
+            let leg_selection = LegSelection::Exhaustive;
+            let result_selector = BestResultSelector::default();
+            let eval_ctx = EvaluationContext { goal: &problem.goal, job, leg_selection: &leg_selection, result_selector: &result_selector };
+            let quoted = run.guard(|| {
+                let route_ctx = ctx.solution.routes.iter().chain(ctx.solution.registry.next_route()).nth(target)?;
+                Some((
+                    eval_job_insertion_in_route(&ctx, &eval_ctx, route_ctx, InsertionPosition::Any, InsertionResult::make_failure()),
+                    route_ctx.route().actor.clone(),
+                    route_ctx.route().tour.job_count(),
+                ))
+            });
+            let art = |extra: Value| json!({"origin": "pragmatic", "case_seed": case_seed, "problem": gp.problem, "matrices": gp.matrices, "shape": gp.shape(), "job": vverif::histories::job_id(job), "target": target, "details": extra});
+            let (success, actor, jobs_before) = match quoted {
+                Ok(Some((InsertionResult::Success(success), actor, n))) => (success, actor, n),
+                Ok(Some((InsertionResult::Failure(_), _, _))) => {
+                    acc.see("pragmatic_quotes", "failure");
+                    continue;
+                }
+                Ok(None) => continue,
+                Err(p) => {
+                    run.violation(&format!("C20|pragmatic|panic|eval|{}", p.file()), &format!("eval_job_insertion_in_route panicked: {} at {}", p.message, p.location), art(json!({"panic": p.to_json()})));
+                    continue;
+                }
+            };
+            let is_new = jobs_before == 0;
+            let target_class = if is_new { "new-tour" } else { "existing-tour" };
+            acc.see("pragmatic_quotes", &format!("{job_class}/{target_class}/success"));
+            let quote: Vec<f64> = success.cost.iter().collect();
+            let before: Vec<f64> = problem.goal.fitness(&ctx).collect();
+            let applied = run.guard(|| {
+                InsertionHeuristic::new(Box::new(Once(Mutex::new(Some(success))))).process(ctx, &PlainJobs, &PlainRoutes, &LegSelection::Exhaustive, &BestResultSelector::default())
+            });
+            let after_ctx = match applied {
+                Ok(ctx) => ctx,
+                Err(p) => {
+                    run.violation(&format!("C20|pragmatic|panic|apply|{}", p.file()), &format!("InsertionHeuristic::process panicked while applying a quoted insertion: {} at {}", p.message, p.location), art(json!({"panic": p.to_json(), "quote": quote})));
+                    continue;
+                }
+            };
+            let after: Vec<f64> = problem.goal.fitness(&after_ctx).collect();
+            let placed = after_ctx.solution.routes.iter().find(|rc| std::sync::Arc::ptr_eq(&rc.route().actor, &actor)).is_some_and(|rc| rc.route().tour.has_job(job) && rc.route().tour.job_count() == jobs_before + 1);
+            let others_kept = held.iter().filter(|j| *j != job).all(|j| after_ctx.solution.unassigned.contains_key(j));
+            if !placed || after_ctx.solution.unassigned.contains_key(job) || !after_ctx.solution.required.is_empty() || !others_kept || after_ctx.solution.routes.len() != n_routes + is_new as usize {
+                acc.undecided("harness: the recreate step did not carry out exactly the quoted insertion");
+                continue;
+            }
+            let parts: Vec<Vec<(String, f64)>> = objectives.iter().map(layer_parts).collect();
+            let width: usize = parts.iter().map(|p| p.len()).sum();
+            if quote.len() > objectives.len() || before.len() != width || after.len() != width {
+                run.violation("C20|pragmatic|shape|components-vs-layers", &format!("{} layers / {} objectives but {} quote components / {} fitness values", objectives.len(), width, quote.len(), before.len()), art(json!({"quote": quote, "before": before, "after": after, "goal": goal_text})));
+                continue;
+            }
+            let mut at = 0usize;
+            for (k, layer) in objectives.iter().enumerate() {
+                let lp = &parts[k];
+                let (lo, hi) = (at, at + lp.len());
+                at = hi;
+                let kind = if lp.len() == 1 { "single".to_string() } else { layer["strategy"]["name"].as_str().unwrap_or("?").to_string() };
+                if !lp.iter().all(|(t, _)| is_additive(t)) {
+                    acc.see("pragmatic_layers", &format!("{kind}: not judged (holds a non-additive objective)"));
+                    continue;
+                }
+                // a missing trailing component of an insertion cost counts as zero
+                let q = quote.get(k).copied().unwrap_or(0.);
+                let delta: f64 = (lo..hi).zip(lp.iter()).map(|(i, (_, w))| w * (after[i] - before[i])).sum();
+                let scale = (lo..hi).map(|i| before[i].abs().max(after[i].abs())).fold(q.abs(), f64::max);
+                acc.evals += 1;
+                acc.see("pragmatic_layers", &format!("{kind}: judged"));
+                acc.see("pragmatic_verdicts", &format!("{}/{target_class}/{job_class}", layer_name(layer)));
+                if delta != 0. {
+                    acc.see("pragmatic_nonzero_delta", &kind);
+                }
+                if !close(delta, q, scale) {
+                    run.violation(
+                        &format!("C20|pragmatic|layer={}|delta-mismatch|{job_class}|{target_class}", layer_name(layer)),
+                        &format!("{} at rank {k}: quoted {q} but the (weighted) fitness of the layer changed by {delta}; goal {goal_text}", layer_name(layer)),
+                        art(json!({"rank": k, "quote": quote, "before": before, "after": after, "goal": goal_text})),
+                    );
+                }
+            }
+            run.nontrivial(&format!("pragmatic/{case_seed}/{}/{target}", vverif::histories::job_id(job)));
+            if run.wants_sample() && objectives.iter().any(|l| l["type"] == "multi-objective") {
+                run.sample(json!({"origin": "pragmatic", "shape": gp.shape(), "goal": goal_text, "job": vverif::histories::job_id(job), "target": target_class, "quote": quote, "fitness_before": before, "fitness_after": after}));
+            }
+        }
+    }
+    acc.flush(run);
+}
+
 // ---------------------------------------------------------------------------------------------
 // workloads
 
@@ -452,6 +675,16 @@ fn random_case(case_seed: u64) -> Option<Case> {
 fn replay(run: &Run, path: &std::path::Path) {
     let doc: Value = std::fs::read_to_string(path).ok().and_then(|t| serde_json::from_str(&t).ok()).unwrap_or(Value::Null);
     let art = doc.get("artefact").cloned().unwrap_or(Value::Null);
+    if art.get("origin").and_then(|o| o.as_str()) == Some("pragmatic") {
+        match art.get("case_seed").and_then(|s| s.as_u64()) {
+            Some(case_seed) => {
+                println!("re-running the pragmatic-goal case {case_seed} of {} (generator, state and quotes are rebuilt from the case seed)", path.display());
+                check_pragmatic_case(run, case_seed);
+            }
+            None => run.inconclusive("replay: pragmatic artefact without case seed"),
+        }
+        return;
+    }
     match art.get("case").cloned().and_then(|c| serde_json::from_value::<Case>(c).ok()) {
         Some(case) => {
             println!("replaying the literal case of {} (all targets and positions)", path.display());
@@ -472,6 +705,7 @@ fn main() {
     run.assume("the vehicle's latest departure equals its earliest one: no departure-time shift; the fixed cost is set on the public `Vehicle::costs.fixed` field (the builder has no setter)");
     run.assume("the state is finalised: `required` empty, pending jobs in `unassigned` with UnassignmentInfo::Unknown; the insertion is applied by InsertionHeuristic::process with an evaluator returning exactly the quoted InsertionSuccess once");
     run.assume("insertions that O3 finds infeasible or malformed are C06's subject and counted inconclusive here");
+    run.assume("clause 2 (pragmatic goals): generated pragmatic problems without breaks / reloads / recharge / unreachable locations whose objective list is made of minimize-unassigned, minimize-tours|maximize-tours, minimize-distance (15 %: minimize-cost, not judged), maximize-value, 75 % with two or three of them folded into a multi-objective layer (sum or weighted-sum); the state is a cheapest-insertion solution with 1-3 withheld jobs listed as unassigned (Unknown); a layer is judged when all its objectives are additive: its quote must equal the (weighted) sum of the realised fitness changes of its objectives; position Any only");
 
     let descs = grid_descs();
     run.note("grid_family_cases", json!(descs.len()));
@@ -488,6 +722,16 @@ fn main() {
             None => run.inconclusive("generator: no case without an empty tour in 20 draws"),
         }
     });
+
+    // clause 2: goals composed by the pragmatic reader
+    let pcases = run.by_tier(8_000u64, 400_000);
+    let pstart = std::time::Instant::now();
+    let pbudget = run.by_tier(25u64, 240);
+    par_for(16, pcases, &|| pstart.elapsed().as_secs() >= pbudget, &|i| check_pragmatic_case(&run, mix(run.seed ^ 0x9e37_79b9, i)));
+    run.floor("pragmatic clause: layer verdicts", run.observed("pragmatic_layers", "single: judged") + run.observed("pragmatic_layers", "sum: judged") + run.observed("pragmatic_layers", "weighted-sum: judged"), 2_000);
+    run.floor("pragmatic clause: sum layers judged", run.observed("pragmatic_layers", "sum: judged"), 200);
+    run.floor("pragmatic clause: weighted-sum layers judged", run.observed("pragmatic_layers", "weighted-sum: judged"), 200);
+    run.floor("pragmatic clause: non-zero change of a multi-objective layer", run.observed("pragmatic_nonzero_delta", "sum") + run.observed("pragmatic_nonzero_delta", "weighted-sum"), 200);
 
     run.floor("layer verdicts", run.evaluations(), 50_000);
     run.floor("grid family cases completed", grid_done, descs.len() as u64);
